@@ -142,6 +142,9 @@ func checkC01(ctx *Ctx, r *Report, tier string) {
 	ruleBB7(ctx, r)
 	ruleBB8(r, ctors)
 	ruleBB9(r, ctors)
+	// BB-10: the loft's box (hull of both profile boxes) holds only if the profiles are mixed
+	// with a factor in [0, 1] everywhere (rule shared with C02 M10)
+	checkLoftMix(ctx, r, "BB-10")
 }
 
 // ruleBB9: ScaleTwistExtrude3D scales in the fixed frame what the twist has turned: at height z
